@@ -64,6 +64,21 @@ static int count_fds(void)
 	return n - 1;		/* the directory stream itself */
 }
 
+static int count_threads(void)
+{
+	DIR *d = opendir("/proc/self/task");
+	struct dirent *e;
+	int n = 0;
+
+	if (d == NULL)
+		return -1;
+	while ((e = readdir(d)) != NULL)
+		if (e->d_name[0] != '.')
+			n++;
+	closedir(d);
+	return n;
+}
+
 static void got_fd(void *cookie)
 {
 	struct job *j = cookie;
@@ -267,6 +282,7 @@ int main(int argc, char **argv)
 	int fds[4];
 	size_t heap[4];
 	int b;
+	int thr0 = count_threads();
 
 	alarm(120);
 	/* documented precondition: the first iv_init happens before other threads call into the library */
@@ -276,9 +292,16 @@ int main(int argc, char **argv)
 	heap[0] = __sanitizer_get_current_allocated_bytes();
 	for (b = 1; b <= 3; b++) {
 		batch(&seed, n);
-		/* detached worker / child threads finish asynchronously after their loops' owners were told: give
-		   their exit paths a moment (they hold no library resources any more, only their own stacks) */
-		usleep(20000);
+		/* detached worker / child threads finish asynchronously after their loops' owners were told: wait
+		   until the kernel reports no thread besides the ones that existed at the start */
+		{
+			int w;
+
+			for (w = 0; w < 20000 && count_threads() > thr0; w++)
+				usleep(1000);
+			if (count_threads() > thr0)
+				printf("CHURN-THREADS-LEFT %d\n", count_threads() - thr0);
+		}
 		fds[b] = count_fds();
 		heap[b] = __sanitizer_get_current_allocated_bytes();
 	}
